@@ -145,6 +145,33 @@ def run(ctx, rep):
             reps.append(tuple(ls[:2]))
         rep.ob("env-quoting", "escapes-backslash-and-quote", ("\\", "\\\\") in reps and ("\"", "\\\"") in reps,
                f"replacements {reps}; note: `$` and backquote remain active inside double quotes (GCC option strings rely on ${{OUT}} substitution)", se["file"], se["line"])
+    # ---- lexically normalised paths are not file-system paths ---------------------------------------------------------
+    # `normalize_abs_path` cancels `dir/..` textually. That equals what the kernel does only if `dir` is not a symlink, so its result
+    # may be compared (`starts_with`) or turned into link text, but must never be the path that is opened, stat-ed or copied: the bundle
+    # would get a dangling link (or another file) for inputs reached through a symlinked directory.
+    rep.rule("lexical-paths", "the result of normalize_abs_path never reaches, by identity, a call that accesses the file system or copy_file")
+    from mir import callee_key as _ck, stable as _st
+    ACCESS = ("copy_file", "handle_thin_archive", "FileData::new", "File::open", "File::create", "symlink_metadata", "read_link", "Path::exists",
+              "hard_link", "fs::copy", "fs::read", "fs::write", "create_dir", "fs::metadata", "Path::is_file", "Path::is_dir", "canonicalize")
+    n_norm = n_acc = 0
+    for b in F.all_bodies:
+        if not _st(b.key).startswith("libwild::save_dir::"):
+            continue
+        flow = P.flow(b)
+        for bi, t in flow.calls():
+            ck = _ck(t["f"]) or ""
+            if ck.endswith("normalize_abs_path"):
+                n_norm += 1
+            if not any(ck.endswith(a) or ("::" + a) in ck for a in ACCESS):
+                continue
+            n_acc += 1
+            for i_, a in enumerate(t["args"]):
+                o = flow.origins(a)
+                if any(x[0] == "call" and (x[1] or "").endswith("normalize_abs_path") for x in o):
+                    rep.ob("lexical-paths", f"{_st(b.key)}->{ck.split('::')[-1]}", False,
+                           "a path produced by the textual `..` cancellation of normalize_abs_path is used to access the file system: for an input reached through a "
+                           "symlinked directory this names a different (or no) file, and the saved bundle no longer replays", b.file, t["l"])
+    rep.ob("lexical-paths", "summary", n_norm >= 1 and n_acc >= 5, f"{n_norm} call(s) of normalize_abs_path, {n_acc} file-system access call(s) in save_dir examined", "libwild/src/save_dir.rs", 0)
     rep.assume("byte-identical replay itself (same wild binary, same inputs) is a run-time matter")
 
 
